@@ -3,8 +3,8 @@
 From Coq Require Import ExtrOcamlBasic.
 From Coq Require Import List ZArith String.
 From Coq Require Import NArith.
-From IprV Require Import GenTypes Visitor Bits Arena Lexicon LexiconProofs Derived Schema Typing Stability.
-From IprV.gen Require Import GenCategory GenIface GenVisitor GenAccept GenWords GenLexAcc GenDerived GenFactory GenTypeRule.
+From IprV Require Import GenTypes Visitor Bits Arena Lexicon LexiconProofs Derived Schema Typing Stability PrinterDispatch LiteralModel.
+From IprV.gen Require Import GenCategory GenIface GenVisitor GenAccept GenWords GenLexAcc GenDerived GenFactory GenTypeRule GenPrinter.
 Import ListNotations.
 Local Open Scope bool_scope.
 
@@ -63,7 +63,7 @@ Definition c02_find (cls name : string) (sorts : list string) : option gfactory 
   List.find (fun f => streq (gf_class f) cls && streq (gf_name f) name && strs_eqb (gf_sorts f) sorts) gen_factories.
 (* documented accessor, expected value, and whether the static model reaches it *)
 Definition c02_expect (f : gfactory) (args : list string) : option (list (string * (string * bool))) :=
-  option_map (map (fun r => (fst r, (render args (snd r),
+  option_map (map (fun r => (fst r, (Schema.render args (snd r),
                                      match model_read gen_derived f (fst r) with Some _ => true | None => false end)))) (doc f).
 (* the node the model of the code builds: constructor slot -> value *)
 Definition c02_model_node (f : gfactory) (args : list string) : option node :=
@@ -85,7 +85,12 @@ Definition c09_growth (kind : string) (ts : list nat) : list tval :=
 (* C05: an abstract history: container creations and member additions; the model's member lists *)
 Definition c05_members (ops : list hop) : list (list nat) := map t_members (hrun ops).
 
+(* C18: the text the literal printer writes for a spelling, per the regenerated switch table *)
+Definition c18_escape (s : list N) : option (list N) :=
+  escape (match gen_pr_literal with Some t => t | None => [] end) s.
+
 Extraction "extracted/genmodel.ml" c06_rows
+  c18_escape
   c05_members
   c09_prescribed c09_source_rule c09_growth
   c02_find c02_expect c02_model_node c02_exempt c02_factories
